@@ -1,0 +1,33 @@
+//go:build verif
+// +build verif
+
+package crdt
+
+// Contracts for the deductive verifier in /verif (comment-only file, build tag `verif`).
+
+// C08: the last-writer-wins comparison. An entry carries two timestamps; its update time is the later of the two, it is
+// visible ("added") when the addition is the later one, removed when the deletion is. `inline`: callers are verified against
+// the bodies of these functions (the getters of the concrete entry type read the current memory), the contracts below are
+// checked against the bodies once, for every implementation of Entry.
+//@ func (Entry).GetLastAdded(e Entry) (r int64)
+//@   pure
+//@ func (Entry).GetLastDeleted(e Entry) (r int64)
+//@   pure
+
+//@ func IsEntryAdded(s Entry) (r bool)
+//@   ensures r <==> (s.GetLastAdded() > 0 && s.GetLastAdded() > s.GetLastDeleted())
+//@   modifies nothing
+//@   inline
+//@ func IsEntryRemoved(s Entry) (r bool)
+//@   ensures r <==> (s.GetLastDeleted() > 0 && s.GetLastAdded() < s.GetLastDeleted())
+//@   modifies nothing
+//@   inline
+//@ func GetLastEntryUpdate(s Entry) (r int64)
+//@   ensures s == nil ==> r == 0
+//@   ensures s != nil ==> r == lwwts(s.GetLastAdded(), s.GetLastDeleted())
+//@   modifies nothing
+//@   inline
+//@ func IsEntryOutdated(s Entry, remote Entry) (outdated bool)
+//@   ensures outdated <==> (if s == nil then 0 else lwwts(s.GetLastAdded(), s.GetLastDeleted())) < (if remote == nil then 0 else lwwts(remote.GetLastAdded(), remote.GetLastDeleted()))
+//@   modifies nothing
+//@   inline
